@@ -87,6 +87,10 @@ type run struct {
 	res    map[string][]string
 	cbs    int32
 	wgAll  sync.WaitGroup
+	// lateDone: this path does not call ctx.Done() before the model says the context is closed, so
+	// that the FIRST Done() call of the context's life lands after the wait is over (a lazily
+	// created channel must still not be signalled before the callbacks have run)
+	lateDone bool
 }
 
 var (
@@ -291,10 +295,14 @@ func (r *run) compare(st *State) *mismatch {
 func (r *run) compare1(st *State) *mismatch {
 	closing, closed, running := stdlib.VerifLifecycle(r.ctx)
 	done := false
-	select {
-	case <-r.ctx.Done():
-		done = true
-	default:
+	if r.lateDone && !st.Closed {
+		done = st.Done // not observed on this path yet
+	} else {
+		select {
+		case <-r.ctx.Done():
+			done = true
+		default:
+		}
 	}
 	cbs := int(atomic.LoadInt32(&r.cbs))
 	if closing != st.Closing || closed != st.Closed || running != st.Running || done != st.Done || cbs != st.Cbs {
@@ -489,6 +497,7 @@ func replayGraph(g *graph, rep *common.Report, st *stats) {
 			cur = g.edges[next].dst
 		}
 		r := newRun(g)
+		r.lateDone = st.paths%2 == 1 && !scriptWaits(g)
 		want, blocked := expect(g.states[init])
 		mm := r.settle(want, blocked, false)
 		if mm == nil {
@@ -537,6 +546,18 @@ func replayGraph(g *graph, rep *common.Report, st *stats) {
 			st.covered++
 		}
 	}
+}
+
+// scriptWaits: some goroutine of the script receives from Done() itself
+func scriptWaits(g *graph) bool {
+	for _, sc := range g.script {
+		for _, op := range sc {
+			if op == "wait" {
+				return true
+			}
+		}
+	}
+	return false
 }
 
 func opOf(g *graph, e edge) string {
